@@ -5,9 +5,16 @@ import TapkeeVerif.Model.Params
 Transcribed from the property text of C14 (`/verif/properties.jsonl`) and the doc comments of
 `include/tapkee/defines/keywords.hpp`; it does not mention any generated table except the names of the methods and
 keywords.  `v k` is the numeric value keyword `k` has in the merged parameter set, `n` the number of samples.
+
+Values are `XReal` (a `double` as the front end sees it: a finite rational, NaN or ±inf) and `≤`, `<` below are the IEEE
+comparisons: **NaN lies in no range** (every row mentioning it is false, so `wrong_parameter_error` is expected), `+inf`
+lies only in ranges without an upper bound ("non-positive width", "negative theta" … do not exclude it), `-inf` in none.
+`‹q›` is the finite value `q`.
 -/
 namespace TapkeeVerif.C14
 open TapkeeVerif.Gen TapkeeVerif.Front
+
+local notation "‹" q "›" => XReal.fin q
 
 /-- the methods that search nearest neighbours -/
 def neighbourMethods : List Meth :=
@@ -17,54 +24,54 @@ def neighbourMethods : List Meth :=
 
 /-- **The ranges listed in the property text** that apply to method `m` hold (`speLocal`: `spe_global_strategy` is
     `false`) -/
-def ListedRanges (m : Meth) (n : Nat) (v : Kw → Rat) (speLocal : Bool) : Prop :=
+def ListedRanges (m : Meth) (n : Nat) (v : Kw → XReal) (speLocal : Bool) : Prop :=
   -- target_dimension ∈ [1, N), every method
-  (1 ≤ v .target_dimension ∧ v .target_dimension < n) ∧
+  (‹1› ≤ v .target_dimension ∧ v .target_dimension < ‹n›) ∧
   -- num_neighbors ∈ [3, N), the 11 neighbour-using methods (SPE only with its local strategy)
   (m ∈ neighbourMethods → (m = .StochasticProximityEmbedding → speLocal = true) →
-      3 ≤ v .num_neighbors ∧ v .num_neighbors < n) ∧
+      ‹3› ≤ v .num_neighbors ∧ v .num_neighbors < ‹n›) ∧
   -- positive gaussian kernel width
-  (m ∈ [Meth.LaplacianEigenmaps, .LocalityPreservingProjections, .DiffusionMap] → 0 < v .gaussian_kernel_width) ∧
+  (m ∈ [Meth.LaplacianEigenmaps, .LocalityPreservingProjections, .DiffusionMap] → ‹0› < v .gaussian_kernel_width) ∧
   -- positive number of timesteps
-  (m = .DiffusionMap → 0 < v .diffusion_map_timesteps) ∧
+  (m = .DiffusionMap → ‹0› < v .diffusion_map_timesteps) ∧
   -- positive SPE tolerance and number of updates
-  (m = .StochasticProximityEmbedding → 0 < v .spe_tolerance ∧ 0 < v .spe_num_updates) ∧
+  (m = .StochasticProximityEmbedding → ‹0› < v .spe_tolerance ∧ ‹0› < v .spe_num_updates) ∧
   -- landmark_ratio ∈ [3/N, 1]
-  (m ∈ [Meth.LandmarkIsomap, .LandmarkMultidimensionalScaling] → 3 / (n : Rat) ≤ v .landmark_ratio ∧ v .landmark_ratio ≤ 1) ∧
+  (m ∈ [Meth.LandmarkIsomap, .LandmarkMultidimensionalScaling] → ‹3 / (n : Rat)› ≤ v .landmark_ratio ∧ v .landmark_ratio ≤ ‹1›) ∧
   -- perplexity ∈ [0, (N-1)/3], theta ≥ 0
   (m = .tDistributedStochasticNeighborEmbedding →
-      (0 ≤ v .sne_perplexity ∧ v .sne_perplexity ≤ ((n : Rat) - 1) / 3) ∧ 0 ≤ v .sne_theta) ∧
+      (‹0› ≤ v .sne_perplexity ∧ v .sne_perplexity ≤ ‹((n : Rat) - 1) / 3›) ∧ ‹0› ≤ v .sne_theta) ∧
   -- FA epsilon ≥ 0
-  (m = .FactorAnalysis → 0 ≤ v .fa_epsilon) ∧
+  (m = .FactorAnalysis → ‹0› ≤ v .fa_epsilon) ∧
   -- squishing rate ∈ [0, 1)
-  (m = .ManifoldSculpting → 0 ≤ v .squishing_rate ∧ v .squishing_rate < 1)
+  (m = .ManifoldSculpting → ‹0› ≤ v .squishing_rate ∧ v .squishing_rate < ‹1›)
 
 /-- **Rank conditions on `target_dimension` added by the repairs.**  They are NOT in the property's list: this half of
     the specification was written after the code was repaired, from the fix commits of the repository (subject line
     quoted per row; the check each commit added carries a one-line comment saying the same).  `dim` is the feature
     dimension the method sees (`features.dimension()`, 0 without a features callback). -/
-def RankConditions (m : Meth) (n dim : Nat) (v : Kw → Rat) : Prop :=
+def RankConditions (m : Meth) (n dim : Nat) (v : Kw → XReal) : Prop :=
   -- 1a9ba3c "fix: KLTSA, LLTSA, HLLE and manifold sculpting reject a target dimension their local problems cannot
   --          supply" (validate(): "the tangent coordinates are the leading eigenvectors of a num_neighbors x
   --          num_neighbors local Gram matrix"):  target_dimension ≤ num_neighbors
   (m ∈ [Meth.HessianLocallyLinearEmbedding, .KernelLocalTangentSpaceAlignment, .LinearLocalTangentSpaceAlignment] →
-      v .target_dimension < v .num_neighbors + 1) ∧
+      v .target_dimension < v .num_neighbors + ‹1›) ∧
   -- c5e886d "fix: landmark methods reject a target dimension above the number of landmarks" (validate(): "the
   --          embedding is spanned by eigenvectors of the landmark problem"):  target_dimension ≤ ⌊N · landmark_ratio⌋
   (m ∈ [Meth.LandmarkIsomap, .LandmarkMultidimensionalScaling] →
-      v .target_dimension < (truncRat ((n : Rat) * v .landmark_ratio) : Rat) + 1) ∧
+      v .target_dimension < XReal.trunc (‹n› * v .landmark_ratio) + ‹1›) ∧
   -- a64904a "fix: PCA, NPE, LLTSA and LPP reject a target dimension above the feature dimension" ("rightCols(
   --          target_dimension) of the D x D eigenvector matrix read out of bounds"), and 1a9ba3c for manifold sculpting;
   --          keywords.hpp, target_dimension: "less than the minimum of the total number of vectors and the current
   --          dimension":  target_dimension ≤ current dimension
   (m ∈ [Meth.NeighborhoodPreservingEmbedding, .LinearLocalTangentSpaceAlignment, .LocalityPreservingProjections,
-        .PrincipalComponentAnalysis, .ManifoldSculpting] → v .target_dimension < (dim : Rat) + 1) ∧
+        .PrincipalComponentAnalysis, .ManifoldSculpting] → v .target_dimension < ‹(dim : Rat) + 1›) ∧
   -- 79e38b2 "fix: t-SNE respects target_dimension in the exact error and rejects non-2D Barnes-Hut maps" ("the
   --          Barnes-Hut path uses a quadtree (two dimensions only)"):  theta > 0 → target_dimension = 2
-  (m = .tDistributedStochasticNeighborEmbedding → 0 < v .sne_theta → 2 ≤ v .target_dimension ∧ v .target_dimension < 3)
+  (m = .tDistributedStochasticNeighborEmbedding → ‹0› < v .sne_theta → ‹2› ≤ v .target_dimension ∧ v .target_dimension < ‹3›)
 
 /-- every documented range that applies to method `m` holds -/
-def SpecHolds (m : Meth) (n dim : Nat) (v : Kw → Rat) (speLocal : Bool) : Prop :=
+def SpecHolds (m : Meth) (n dim : Nat) (v : Kw → XReal) (speLocal : Bool) : Prop :=
   ListedRanges m n v speLocal ∧ RankConditions m n dim v
 
 end TapkeeVerif.C14
